@@ -29,6 +29,9 @@ type Config struct {
 	Scratch string // scratch directory (removed by the caller)
 	Sites   string // simgen site table (instrumented build)
 	Bins    string // directory with the sibling harness binaries
+	// NoMinimise: report the violations as the workers found them (used when the minimising reporter process was
+	// brought down by the tree under test: shrunken documents can reach a panic in a library-started goroutine)
+	NoMinimise bool
 }
 
 // Violation is one counterexample.
